@@ -47,6 +47,8 @@ TSetField == /\ Ev.cmd = "set_params" /\ Ev.outcome = "ok" /\ Len(Ev.args) = 2 /
              /\ SetConfigField(Ev.args[1], Ev.args[2]) /\ Obs
 TSetTwo == /\ Ev.cmd = "set_params" /\ Ev.outcome = "ok" /\ Len(Ev.args) = 4 /\ Ev.args[1] \in ConfigFields
            /\ SetTwoFields(Ev.args[1], Ev.args[2], Ev.args[3], Ev.args[4]) /\ Obs
+TSetCfgField == /\ Ev.cmd = "set_params" /\ Ev.outcome = "ok" /\ Len(Ev.args) = 4 /\ Ev.args[1] = "config"
+                /\ SetConfigAndField(Ev.args[2], Ev.args[3], Ev.args[4]) /\ Obs
 TSetNoiseField == /\ Ev.cmd = "set_params" /\ Ev.outcome = "ok" /\ Len(Ev.args) = 4 /\ Ev.args[1] = "process_noise"
                   /\ SetNoiseAndField(Ev.args[2], Ev.args[3], Ev.args[4]) /\ Obs
 TSetConfig == /\ Ev.cmd = "set_params" /\ Ev.outcome = "ok" /\ Ev.args[1] = "config"
@@ -69,7 +71,7 @@ TFitFail == /\ Ev.cmd = "fit" /\ Ev.outcome = "MinimizationFailure" /\ l <= Len(
             /\ UNCHANGED <<tid, uni, orig, log, done>>
 
 TNext == l <= Len(Traces[tid]) /\
-         (TGetSet \/ TSetTok \/ TSetPN \/ TSetSN \/ TSetField \/ TSetTwo \/ TSetNoiseField \/ TSetConfig \/ TSetBogus \/ TClone \/ TQuery \/ TFitOk \/ TFitFail)
+         (TGetSet \/ TSetTok \/ TSetPN \/ TSetSN \/ TSetField \/ TSetTwo \/ TSetNoiseField \/ TSetCfgField \/ TSetConfig \/ TSetBogus \/ TClone \/ TQuery \/ TFitOk \/ TFitFail)
 
 Reach == TLCSet(tid, IF TLCGet(tid) < l THEN l ELSE TLCGet(tid))
 Post == \A t \in 1..Len(Traces) :
